@@ -21,14 +21,26 @@ def multi_history(r, hid, max_lifetimes=6):
 
 def run(res, tier, seed, replay):
     res.cov["rule"] = ("real: 2-6 (quick) / 2-20 (thorough) consecutive injector lifetimes in ONE process that evaluate the same 1-3 fake!(.., times: N) call sites (N in 0..3) with 0-5 calls each; per lifetime the outcome of every call and of scope exit "
-                       "must be what the counting rule gives for THAT lifetime's calls alone; the extracted lifetime machine (counters persisting across lifetimes, reset at installation) runs the same history; "
+                       "must be what the counting rule gives for THAT lifetime's calls alone; pairs of one call site EVALUATED up front or during an earlier lifetime and installed later count from zero at their installation; the extracted lifetime machine (counters persisting across lifetimes, reset at installation) runs the same history; "
                        "and two lifetimes of two THREADS built by the same line, the second begun while the first is alive and has made none of its calls (each verdict depends on its own calls only); distinct = distinct (lifetimes, op-kind set, repeated-target flag) / (N, calls-N of each lifetime)")
     res.cov["trusted_base"] = vlib.TRUSTED_COMMON + ["the `static FAKE_COUNTER` of a fake! call site is modelled as one counter per site id persisting across lifetimes"]
     res.assumptions = ["one evaluation of a call site per lifetime (two live installations sharing one static are outside the statement)"]
     vlib.proof_stage(res, "C07", thorough=(tier == "thorough"))
     ok, out = vlib.build_extract()
     if not ok: res.broke("extraction of the model failed", out); return
-    corpus = [("k0 r0,fk0,fk1,fk2,fk3 T:r0:1,C:r0|T:r0:1,C:r0|T:r0:1,C:r0", [["T:r0:1", "C:r0"]] * 3),
+    def prepared(rr, hid):
+        """pairs built by one fake!(.., times: N) line are prepared up front (or during an earlier lifetime) and installed later"""
+        k = rr.choice([1, 2, 3]); n = rr.randint(2, 4); t = rr.choice(["r0", "r1"])
+        lts = [[f"E:s{i}:{k}" for i in range(n)] if rr.random() < 0.6 else [f"E:s0:{k}"]]
+        for i in range(n):
+            ops = [f"T:{t}:@s{i}"] + [f"C:{t}"] * rr.choice([RLN[k], RLN[k], 0, RLN[k] + 1])
+            if len(lts[0]) == 1 and i + 1 < n: ops.insert(rr.randint(1, len(ops)), f"E:s{i + 1}:{k}")     # the next pair is built during this lifetime
+            lts.append(ops)
+        lts[1] = lts[0] + lts[1]; lts = lts[1:]
+        return f"{hid} r0,r1,fk0,fk1,fk2,fk3 " + "|".join(",".join(o) for o in lts), lts
+    RLN = {1: 1, 2: 2, 3: 3}
+    rp = random.Random(seed + 707)
+    corpus = [prepared(rp, f"pr{i}") for i in range(10 if tier == "quick" else 300)] + [("k0 r0,fk0,fk1,fk2,fk3 T:r0:1,C:r0|T:r0:1,C:r0|T:r0:1,C:r0", [["T:r0:1", "C:r0"]] * 3),
               ("k1 r0,r1,fk0,fk1,fk2,fk3 T:r0:2,C:r0|T:r0:2,C:r0,C:r0|T:r1:2,C:r1,C:r1", [["T:r0:2", "C:r0"], ["T:r0:2", "C:r0", "C:r0"], ["T:r1:2", "C:r1", "C:r1"]])]
     ml = 6 if tier == "quick" else 20
     histlib.check_histories(res, "c06", 120 if tier == "quick" else 3000, seed + 7, "full", extra_lines=corpus,
